@@ -1,0 +1,213 @@
+//! Verification-only stand-ins for `std::collections::{HashMap, HashSet}`.
+//!
+//! Compiled only with `--cfg rva_verif`. They are backed by a `Vec` with
+//! linear search so that a bounded model checker can execute them; they
+//! implement exactly the subset of the std API that the code they are
+//! swapped into uses. Observationally they are finite maps/sets; iteration
+//! order is insertion order.
+
+use serde::{Deserialize, Serialize};
+
+#[derive(Debug, Clone)]
+pub struct HashMap<K, V> {
+    items: Vec<(K, V)>,
+}
+
+impl<K: PartialEq, V> HashMap<K, V> {
+    #[must_use]
+    pub fn new() -> Self {
+        HashMap { items: Vec::new() }
+    }
+
+    pub fn iter(&self) -> Iter<'_, K, V> {
+        Iter {
+            inner: self.items.iter(),
+        }
+    }
+
+    pub fn get(&self, key: &K) -> Option<&V> {
+        self.items.iter().find(|(k, _)| k == key).map(|(_, v)| v)
+    }
+
+    pub fn insert(&mut self, key: K, value: V) -> Option<V> {
+        for (k, v) in &mut self.items {
+            if *k == key {
+                return Some(std::mem::replace(v, value));
+            }
+        }
+        self.items.push((key, value));
+        None
+    }
+
+    pub fn remove(&mut self, key: &K) -> Option<V> {
+        let idx = self.items.iter().position(|(k, _)| k == key)?;
+        Some(self.items.remove(idx).1)
+    }
+
+    pub fn retain<F: FnMut(&K, &mut V) -> bool>(&mut self, mut f: F) {
+        self.items.retain_mut(|(k, v)| f(k, v));
+    }
+
+    #[must_use]
+    pub fn is_empty(&self) -> bool {
+        self.items.is_empty()
+    }
+
+    #[must_use]
+    pub fn len(&self) -> usize {
+        self.items.len()
+    }
+}
+
+impl<K: PartialEq, V> Default for HashMap<K, V> {
+    fn default() -> Self {
+        Self::new()
+    }
+}
+
+impl<K: PartialEq, V> Extend<(K, V)> for HashMap<K, V> {
+    fn extend<I: IntoIterator<Item = (K, V)>>(&mut self, iter: I) {
+        for (k, v) in iter {
+            self.insert(k, v);
+        }
+    }
+}
+
+impl<K: PartialEq, V: PartialEq> PartialEq for HashMap<K, V> {
+    fn eq(&self, other: &Self) -> bool {
+        self.items.len() == other.items.len()
+            && self.items.iter().all(|(k, v)| other.get(k) == Some(v))
+    }
+}
+impl<K: Eq, V: Eq> Eq for HashMap<K, V> {}
+
+pub struct Iter<'a, K, V> {
+    inner: std::slice::Iter<'a, (K, V)>,
+}
+impl<'a, K, V> Iterator for Iter<'a, K, V> {
+    type Item = (&'a K, &'a V);
+    fn next(&mut self) -> Option<Self::Item> {
+        self.inner.next().map(|(k, v)| (k, v))
+    }
+}
+
+pub type IntoIter<K, V> = std::vec::IntoIter<(K, V)>;
+
+impl<K, V> IntoIterator for HashMap<K, V> {
+    type Item = (K, V);
+    type IntoIter = IntoIter<K, V>;
+    fn into_iter(self) -> Self::IntoIter {
+        self.items.into_iter()
+    }
+}
+
+impl<'a, K: PartialEq, V> IntoIterator for &'a HashMap<K, V> {
+    type Item = (&'a K, &'a V);
+    type IntoIter = Iter<'a, K, V>;
+    fn into_iter(self) -> Self::IntoIter {
+        self.iter()
+    }
+}
+
+impl<K: PartialEq, V> FromIterator<(K, V)> for HashMap<K, V> {
+    fn from_iter<I: IntoIterator<Item = (K, V)>>(iter: I) -> Self {
+        let mut map = HashMap::new();
+        map.extend(iter);
+        map
+    }
+}
+
+impl<'de, K, V> Deserialize<'de> for HashMap<K, V>
+where
+    K: Deserialize<'de> + Eq + std::hash::Hash,
+    V: Deserialize<'de>,
+{
+    fn deserialize<D: serde::Deserializer<'de>>(deserializer: D) -> Result<Self, D::Error> {
+        let map = std::collections::HashMap::<K, V>::deserialize(deserializer)?;
+        Ok(map.into_iter().collect())
+    }
+}
+
+impl<K: Serialize, V: Serialize> Serialize for HashMap<K, V> {
+    fn serialize<S: serde::Serializer>(&self, serializer: S) -> Result<S::Ok, S::Error> {
+        serializer.collect_map(self.items.iter().map(|(k, v)| (k, v)))
+    }
+}
+
+#[derive(Debug, Clone)]
+pub struct HashSet<T> {
+    items: Vec<T>,
+}
+
+impl<T: PartialEq> HashSet<T> {
+    #[must_use]
+    pub fn new() -> Self {
+        HashSet { items: Vec::new() }
+    }
+
+    pub fn insert(&mut self, item: T) -> bool {
+        if self.items.contains(&item) {
+            false
+        } else {
+            self.items.push(item);
+            true
+        }
+    }
+
+    pub fn contains(&self, item: &T) -> bool {
+        self.items.contains(item)
+    }
+
+    pub fn iter(&self) -> std::slice::Iter<'_, T> {
+        self.items.iter()
+    }
+
+    #[must_use]
+    pub fn is_empty(&self) -> bool {
+        self.items.is_empty()
+    }
+
+    #[must_use]
+    pub fn len(&self) -> usize {
+        self.items.len()
+    }
+}
+
+impl<T: PartialEq> Default for HashSet<T> {
+    fn default() -> Self {
+        Self::new()
+    }
+}
+
+impl<T: PartialEq> PartialEq for HashSet<T> {
+    fn eq(&self, other: &Self) -> bool {
+        self.items.len() == other.items.len() && self.items.iter().all(|x| other.contains(x))
+    }
+}
+impl<T: Eq> Eq for HashSet<T> {}
+
+impl<T> IntoIterator for HashSet<T> {
+    type Item = T;
+    type IntoIter = std::vec::IntoIter<T>;
+    fn into_iter(self) -> Self::IntoIter {
+        self.items.into_iter()
+    }
+}
+
+impl<'a, T> IntoIterator for &'a HashSet<T> {
+    type Item = &'a T;
+    type IntoIter = std::slice::Iter<'a, T>;
+    fn into_iter(self) -> Self::IntoIter {
+        self.items.iter()
+    }
+}
+
+impl<T: PartialEq> FromIterator<T> for HashSet<T> {
+    fn from_iter<I: IntoIterator<Item = T>>(iter: I) -> Self {
+        let mut set = HashSet::new();
+        for item in iter {
+            set.insert(item);
+        }
+        set
+    }
+}
